@@ -46,7 +46,10 @@ FIELD_KINDS = [
     ("struct{uint8;uint16}", {"k": "st", "kind": "struct", "name": None, "fields": [{"name": "p", "t": S("uint8"), "bits": None}, {"name": "q", "t": S("uint16"), "bits": None}]}),
     ("uint8:3", "bits"),
     ("uint8[]", {"k": "a", "t": S("uint8"), "len": ["null"]}),
+    ("E8:3", "bits-enum"), ("char:4", "bits-char"), ("uint24:5", "bits-odd"),
 ]
+BIT_KINDS = {"bits": (S("uint8"), 3), "bits-enum": ({"k": "e", "n": "E8"}, 3), "bits-char": (S("char"), 4), "bits-odd": (S("uint24"), 5)}
+E8_DEF = {"k": "enumdef", "n": "E8", "kind": "enum", "base": "uint8", "members": [["Z", 0], ["ONE", 1], ["FIVE", 5]]}
 
 
 def triple_cases():
@@ -56,13 +59,16 @@ def triple_cases():
             fields = []
             for j, ki in enumerate(combo):
                 name, t = FIELD_KINDS[ki]
-                if t == "bits":
-                    fields.append({"name": f"f{j}", "t": S("uint8"), "bits": 3})
+                if isinstance(t, str):
+                    bt, bw = BIT_KINDS[t]
+                    fields.append({"name": f"f{j}", "t": bt, "bits": bw})
                 else:
                     fields.append({"name": f"f{j}", "t": t, "bits": None})
-            defs = [{"k": "structdef", "n": "Root", "t": {"k": "st", "kind": "struct", "name": None, "fields": fields}}]
-            if all(FIELD_KINDS[ki][1] == "bits" for ki in combo):
-                continue  # 3+3+3 bits in a uint8 straddles the unit: rejected by definition (covered in C06)
+            defs = [dict(E8_DEF), {"k": "structdef", "n": "Root", "t": {"k": "st", "kind": "struct", "name": None, "fields": fields}}]
+            try:
+                refsem.Sem(defs, {"endian": "<", "align": align, "ptr": "uint32"}).layout(defs[1]["t"])
+            except refsem.DefinitionError:
+                continue  # e.g. 3+3+3 bits in one uint8 unit straddle it: rejected by definition (covered in C06)
             yield {
                 "defs": defs, "root": "Root",
                 "cfg": {"endian": "<" if (sum(combo) % 2 == 0) else ">", "align": align, "ptr": "uint32", "compiled": True},
@@ -262,10 +268,10 @@ def stages(tier):
         return [
             HypStage("diff", diff_case, examples=500, shards=10),
             HypStage("custom-types", custom_case, examples=300, shards=2),
-            EnumStage("triples", triple_cases, shards=6, scope="every ordered triple of 14 field kinds x {packed, aligned} (5488 definitions) x full input, all cut points, one raw input"),
+            EnumStage("triples", triple_cases, shards=6, scope="every ordered triple of 17 field kinds (incl. enum-, char- and 24-bit-backed bit-fields) x {packed, aligned} (~9800 definitions) x full input, all cut points, one raw input"),
         ]
     return [
         HypStage("diff", diff_case, examples=2000, shards=16),
         HypStage("custom-types", custom_case, examples=2500, shards=4),
-        EnumStage("triples", triple_cases, shards=8, scope="every ordered triple of 14 field kinds x {packed, aligned} (5488 definitions) x full input, all cut points, one raw input"),
+        EnumStage("triples", triple_cases, shards=8, scope="every ordered triple of 17 field kinds (incl. enum-, char- and 24-bit-backed bit-fields) x {packed, aligned} (~9800 definitions) x full input, all cut points, one raw input"),
     ]
